@@ -786,8 +786,44 @@ fn gen_float_bits(rng: &mut Rng, t: u8) -> u64 {
     }
 }
 /// string / raw content classes; returns (segments, class tag)
+/// byte-order marks: a decoder that sniffs for them (`Encoding::decode` instead of
+/// `decode_without_bom_handling`) strips them and switches to UTF-8 / UTF-16
+const BOMS: [&[u8]; 3] = [&[0xef, 0xbb, 0xbf], &[0xff, 0xfe], &[0xfe, 0xff]];
+fn gen_bom_bytes(rng: &mut Rng) -> Vec<u8> {
+    let bom = *rng.pick(&BOMS[..]);
+    let n = rng.range(0, 7);
+    let tail: Vec<u8> = match rng.below(5) {
+        0 => vec![],                                                        // the mark alone
+        1 => (0..n).map(|_| rng.range(0x20, 0x7e) as u8).collect(),         // ASCII
+        2 => (0..n).map(|_| rng.range(0x80, 0xff) as u8).collect(),         // high bytes
+        3 => (0..(2 * rng.range(0, 3) + 1)).map(|_| *rng.pick(&[b'a', 0x00, 0xe4, 0x20, 0xd8, 0xdc])).collect(), // odd length (UTF-16)
+        _ => (0..(2 * rng.range(1, 3))).map(|_| *rng.pick(&[b'a', 0x00, 0xe4, 0x0a, 0xd8, 0xdc])).collect(),     // even length
+    };
+    let mut v = vec![];
+    if rng.chance(1, 4) {
+        // the mark in the middle of the string
+        let m = rng.range(1, 4);
+        v.extend((0..m).map(|_| rng.range(0x41, 0x5a) as u8));
+    }
+    v.extend_from_slice(bom);
+    v.extend_from_slice(&tail);
+    if rng.chance(1, 5) {
+        v.extend_from_slice(*rng.pick(&BOMS[..]));
+    }
+    v
+}
 fn gen_bytes(rng: &mut Rng, big_ok: bool, for_str: bool) -> (Segs, &'static str) {
     let mut tag = "ascii";
+    if rng.chance(1, 8) {
+        let mut segs = lit(&gen_bom_bytes(rng));
+        if for_str {
+            match rng.below(3) {
+                0 => {}
+                _ => segs.push((vec![0], 1)),
+            }
+        }
+        return (segs, "bom");
+    }
     let mut segs: Segs = match rng.below(if big_ok { 12 } else { 11 }) {
         0 => {
             tag = "empty";
@@ -1169,6 +1205,22 @@ fn corpus(sink: &mut Sink) {
             let mut i = i0.clone();
             i.cut = Some(k as u64);
             record(sink, i);
+        }
+        // byte-order marks at the start / in the middle of strings of both codings (must be decoded like any
+        // other bytes: no sniffing), followed by ASCII, high bytes, odd/even lengths, alone, with/without NUL
+        for bom in BOMS {
+            for tail in [&b""[..], &b"ab"[..], &[0xe4, 0xfc][..], &[b'a', 0, b'b'][..], &[b'a', 0, b'b', 0][..], &[0x3d, 0xd8, 0x00][..], &[b'\n'][..]] {
+                for nul in [false, true] {
+                    let mut b = bom.to_vec();
+                    b.extend_from_slice(tail);
+                    if nul {
+                        b.push(0);
+                    }
+                    let mut mid = b"xy".to_vec();
+                    mid.extend_from_slice(&b);
+                    record(sink, from_vals(&mut rng, &[Val::Str(false, lit(&b)), Val::Str(true, lit(&b)), Val::Str(false, lit(&mid))], be, vec!["corpus".into(), "str_bom".into()]));
+                }
+            }
         }
         // maximal string and raw data
         record(sink, from_vals(&mut rng, &[Val::Str(false, vec![(vec![b'a'], 65535)]), Val::UInt(1, 1)], be, vec!["corpus".into(), "str_fill_max".into()]));
